@@ -49,12 +49,16 @@ func (p *Program) VerifyFunction(c *Contract, opts Options) (rep *FuncReport) {
 		}
 	}()
 	// every loop annotation must find its loop
-	loops, hdrs := computeLoops(fn)
-	_ = loops
+	// (loops of contract-less helpers count at their call sites). Annotations of a loop the function no longer
+	// has are proof hints without an object: they are ignored, and the postconditions must be provable without them.
+	nLoops := len(p.expandedLoopKeys(fn, 0, map[*ssa.Function]bool{fn: true}))
 	for n := range c.Loops {
-		if n < 1 || n > len(hdrs) {
-			rep.Err = fmt.Sprintf("contract-target: %s has %d loop(s), contract mentions loop %d", short, len(hdrs), n)
+		if n < 1 {
+			rep.Err = fmt.Sprintf("contract-target: %s: contract mentions loop %d", short, n)
 			return rep
+		}
+		if n > nLoops {
+			vc.Assumptions[fmt.Sprintf("annotations of loop %d of %s ignored: the function has only %d loop(s) now", n, short, nLoops)] = true
 		}
 	}
 	ex.verifyTop()
